@@ -200,6 +200,13 @@ func configs(thorough bool) []config {
 			r = append(r, config{n: n, m: m, pred: -1, placement: 0, co: false, big: false})
 		}
 	}
+	// very many parts (the level at which the search is split may depend on m)
+	for _, nm := range [][2]int{{5, 64}, {6, 256}, {7, 64}, {7, 256}, {8, 64}, {8, 256}, {8, 1024}} {
+		r = append(r, config{n: nm[0], m: nm[1], pred: -1, placement: 0, co: false, big: false})
+	}
+	if thorough {
+		r = append(r, config{n: 8, m: 4096, pred: -1, placement: 0, co: false, big: false}, config{n: 9, m: 256, pred: -1, placement: 0, co: false, big: false}, config{n: 9, m: 1024, pred: -1, placement: 0, co: false, big: false})
+	}
 	if thorough {
 		for _, m := range ms {
 			r = append(r, config{n: 9, m: m, pred: -1, placement: 0, co: false, big: false})
